@@ -9,7 +9,13 @@ import (
 
 func (a *config) MergeSpoc(d deviceconf.Config) deviceconf.Config {
 	b := d.(*config)
-	a.routes = append(a.routes, b.routes...)
+	// Ignore route from raw, if identical route is already known.
+	for _, r := range b.routes {
+		if !slices.ContainsFunc(a.routes,
+			func(r2 route) bool { return r2.spec == r.spec }) {
+			a.routes = append(a.routes, r)
+		}
+	}
 	for tName, bChains := range b.iptables {
 		aChains := a.iptables[tName]
 		if aChains == nil {
